@@ -8,11 +8,11 @@ EXACT = ("generated-input search (proptest-driven raw vectors, shrinkable, seede
 EX = "Trusted: the harness' reference implementations (refs.rs), the Q/Fp arithmetic (q.rs), and rustc monomorphising the same generic source for f32/f64 as for Q/Fp. "
 ALL = {
  "C01": dict(
-   text="Exploration. Every clause of C01 is a polynomial identity; it is evaluated exactly (no tolerance) on generated dense matrices over Q and over the prime field Fp (per-case miss probability <= degree/2^61, Schwartz-Zippel) for n=2,3,4 and all four by-value/by-reference operand forms, against a textbook triple-loop reference. Not a proof: sampled, but an index/sign/term slip is a hard inequality on a generic input.",
+   text="Exploration. Every clause of C01 is a polynomial identity; it is evaluated exactly (no tolerance) on generated dense matrices over Q and over the prime field Fp (per-case miss probability <= degree/2^61, Schwartz-Zippel) for n=2,3,4 and all four by-value/by-reference operand forms, against a textbook triple-loop reference; an f64 sub-check repeats the products with a rounding-only tolerance on regimes an exact field cannot represent (near-identity, wide magnitudes, sparse, aliased operands). Not a proof: sampled, but an index/sign/term slip is a hard inequality on a generic input.",
    note=EX+"Assumes no division by a zero scalar.",
    technique="property-based testing: exact-field differential oracle (Q, Fp) + algebraic laws", design="6/C01"),
  "C02": dict(
-   text="Exploration. determinant/invert/transpose/swap laws evaluated exactly over Q and Fp on generic matrices and on *constructed* singular (rank n-1 by column and by row combination), low-rank and tiny-determinant matrices; invert()==None is compared with the Leibniz determinant being exactly 0; swap/replace_col index pairs are enumerated completely per case. Sampled search, not a proof; exact arithmetic means no tolerance can hide or invent a failure.",
+   text="Exploration. determinant/invert/transpose/swap laws evaluated exactly over Q and Fp on generic matrices and on *constructed* singular (rank n-1 by column and by row combination), low-rank and tiny-determinant matrices; invert()==None is compared with the Leibniz determinant being exactly 0; swap/replace_col index pairs are enumerated completely per case; native f64/f32 matrices diag(2^a)*U with ordinary, subnormal, underflowed and huge determinants must invert exactly when determinant() != 0. Sampled search, not a proof; exact arithmetic means no tolerance can hide or invent a failure.",
    note=EX+"ulps-equality degenerates to equality in Q/Fp. Memory safety of the unchecked reads is only covered by the ASan fuzz build in the thorough tier.",
    technique="property-based testing: exact-field reference model (Leibniz determinant), constructed singular classes, exhaustive index enumeration", design="6/C02"),
  "C03": dict(
@@ -20,15 +20,15 @@ ALL = {
    note=EX+"Integer operands are constructed inside the no-overflow range; divisors non-zero.",
    technique="property-based testing: per-component reference + algebraic identities over exact fields and integers", design="6/C03"),
  "C04": dict(
-   text="Exploration. Hamilton product vs an independent 4x4 left-multiplication-matrix reference, ring laws, conjugate/norm/inverse laws and the rotation formula q*v for arbitrary and *exactly unit* (p^2/|p|^2) quaternions, all with == over Q and Fp.",
+   text="Exploration. Hamilton product vs an independent 4x4 left-multiplication-matrix reference, ring laws, conjugate/norm/inverse laws and the rotation formula q*v for arbitrary and *exactly unit* (p^2/|p|^2) quaternions, all with == over Q and Fp (operands aliased now and then), plus an f64 sub-check of product and rotation against the reference on quaternions within rounding of +-1, tiny vector parts and wide magnitudes.",
    note=EX,
    technique="property-based testing: exact-field differential oracle + algebraic laws", design="6/C04"),
  "C05": dict(
-   text="Exploration. The four rotation representations are compared exactly over Q/Fp on exactly unit quaternions (action on a vector, element tables, orthonormality, det=+1, composition); matrix->quaternion is decided exactly in Q (all internal square roots are rational) and within 1e-12 in f64, with all four branches required to be reached and the trace=0 hand-over targeted.",
+   text="Exploration. The four rotation representations are compared exactly over Q/Fp on exactly unit quaternions (action on a vector, element tables, orthonormality, det=+1, composition); matrix->quaternion is decided exactly in Q (all internal square roots are rational) and within 1e-12 in f64, with all four branches required to be reached, the trace=0 hand-over and near-identity rotations targeted.",
    note=EX+"Branch classes are recomputed from the input with the documented conditions.",
    technique="property-based testing: exact round-trip + differential oracle with branch-coverage classes", design="6/C05"),
  "C06": dict(
-   text="Exploration. from_axis_angle / from_angle_x,y,z / 2-D from_angle for all six representations against Rodrigues' formula: exactly in Q using named angles with rational (sin,cos) and half-angle pairs and rational unit axes, and within 1e-12 in f64 with libm sin/cos for Rad and Deg inputs; angle additivity, inverse and rotate_point laws.",
+   text="Exploration. from_axis_angle / from_angle_x,y,z / 2-D from_angle for all six representations against Rodrigues' formula: exactly in Q using named angles with rational (sin,cos) and half-angle pairs and rational unit axes, and within 1e-12 in f64 with libm sin/cos for Rad and Deg inputs (angles in +-20 rad, tiny angles, angles next to multiples of a quarter turn); angle additivity, inverse and rotate_point laws.",
    note=EX+"Non-unit axes are outside the statement. Named-angle registry: Q::sin_cos looks the angle's name up.",
    technique="property-based testing: exact rational-trigonometry oracle (Rodrigues) + f64 libm differential", design="6/C06"),
  "C07": dict(
@@ -48,7 +48,7 @@ ALL = {
    note=EX+"Unit inputs for between_vectors; the 1e-7 / 1e-4 allowances of the statement are applied as stated, with a conditioning term 32 eps/theta* between the allowance and 1e-9.",
    technique="property-based testing: validity-predicate oracle with degenerate-class generators (f64) + exact rational geometry (Q)", design="6/C15"),
  "C11": dict(
-   text="Exploration. Exact: magnitude2/distance2/project_on identities over Q and Fp, and magnitude/normalize/normalize_to/distance on vectors of *rational length* (rational unit vector times a rational) so that every internal sqrt is exact, for Vector1-4, Quaternion and Point1-3. f64: the same clauses with 4-8 eps tolerances and the angle clauses (|u||v|cos(angle)=u.v within 1e-12, range, symmetry; 2-D sign pinned by rotating u) on generic, nearly (anti)parallel and exactly (anti)parallel pairs.",
+   text="Exploration. Exact: magnitude2/distance2/project_on identities over Q and Fp, and magnitude/normalize/normalize_to/distance on vectors of *rational length* (rational unit vector times a rational) so that every internal sqrt is exact, for Vector1-4, Quaternion and Point1-3. f64: the same clauses with 4-8 eps tolerances and the angle clauses (|u||v|cos(angle)=u.v within 1e-12, range, symmetry; 2-D sign pinned by rotating u) on generic, nearly (anti)parallel, exactly (anti)parallel and nearly equal pairs.",
    note=EX+"f64 components log-uniform in 1e-3..1e3 (no over/underflow of squares); non-zero lengths by construction.",
    technique="property-based testing: exact rational-length oracle + f64 validity predicates on conditioned pair classes", design="6/C11"),
  "C14": dict(
@@ -56,11 +56,11 @@ ALL = {
    note=EX+"The arc is measured as 2 atan2(|a-b'|,|a+b'|); the frame used for the in-plane test is known to eps/Omega, which is added to the tolerance; either target accepted when |a.b| <= 1e-12.",
    technique="property-based testing: exact-field oracle (lerp) + validity predicate with threshold-targeted generators (nlerp/slerp)", design="6/C14"),
  "C08": dict(
-   text="Exploration. One generic law-checker (composition on points and vectors, concat_self, one(), displacement independence, inverse presence and undoing, inverse_transform_vector) is instantiated for all five Transform impls over Q and Fp with exactly unit rotations, zero/negative scales, singular and fully projective matrices; Decomposed-specific clauses (s*t, explicit formulas, Matrix4/Matrix3::from commuting with apply/compose/invert/one) exactly; the |scale|>1e-6 threshold clause on f64 with scales 0, 5e-324..1e-6, just above 1e-6, ordinary.",
+   text="Exploration. One generic law-checker (composition on points and vectors, concat_self, one(), displacement independence, inverse presence and undoing, inverse_transform_vector) is instantiated for all five Transform impls over Q and Fp with exactly unit rotations, zero/negative scales, singular and fully projective matrices; Decomposed-specific clauses (s*t, explicit formulas, Matrix4/Matrix3::from commuting with apply/compose/invert/one) exactly; the |scale|>1e-6 threshold clause on f64 with scales 0, 5e-324..1e-6, just above 1e-6, ordinary; matrix impls in f64 must invert whenever the determinant is non-zero (determinants down to 1e-150) and M(D^-1) = M(D)^-1.",
    note=EX+"Vector clauses for matrix impls are asserted on affine matrices only; for 0<|scale|<=1e-6 either None or a correct inverse is accepted; f64 tolerances are eps*(|p|+|disp|/|scale|).",
    technique="property-based testing: generic law checker over all Transform implementations, exact fields + f64 threshold classes", design="6/C08"),
  "C09": dict(
-   text="Exploration. Every look_to/look_at entry point (Matrix4 rh/lh, Matrix3 rh/lh, Quaternion, Basis3, Transform impls of Matrix4, Matrix3, Decomposed<_,Quaternion>, Decomposed<_,Basis3>, and the 2-D Matrix2/Basis2 look_at / look_at_stable) is checked against the statement's predicate (rigid, det +1, eye to origin, d to -z / +z, up into x=0,y>=0, mutual agreement) exactly in Q on rational frames for which every normalisation and the matrix->quaternion step are rational, and within a conditioning-scaled tolerance in f64 on arbitrary eye/dir/up.",
+   text="Exploration. Every look_to/look_at entry point (Matrix4 rh/lh, Matrix3 rh/lh, Quaternion, Basis3, Transform impls of Matrix4, Matrix3, Decomposed<_,Quaternion>, Decomposed<_,Basis3>, and the 2-D Matrix2/Basis2 look_at / look_at_stable) is checked against the statement's predicate (rigid, det +1, eye to origin, d to -z / +z, up into x=0,y>=0, mutual agreement) exactly in Q on rational frames for which every normalisation and the matrix->quaternion step are rational, and within a conditioning-scaled, scale-free tolerance in f64 on arbitrary eye/dir/up with lengths over 1e-30..1e30.",
    note=EX+"General position (up not parallel to dir; f64: >= 0.05 rad). The deprecated Transform::look_at is not claimed.",
    technique="property-based testing: validity-predicate oracle on exact rational frames (Q) + toleranced f64 search", design="6/C09"),
  "C10": dict(
